@@ -14,15 +14,15 @@ func init() {
 	register(&Property{
 		ID:  "C10",
 		Run: runC10,
-		Explanation: "Decides the structural clauses of failure classification and bounded recovery on every path of the two lifecycle services: (R1) the cleanup goroutine calls recoverPipeline only on the not-fatal (v2: and not-shutting-down, not-intentionally-stopped) edge, writes Degraded only on the fatal edge or after a failed recovery, and writes only a stopped status when the tomb is still alive / after a deliberate stop; (R2) recoverPipeline / StartWithBackoff have closed caller sets; (R3) StartWithBackoff waits and restarts only below the retry bound (exceeding it returns a fatal error), restarts only when the run it belongs to is still the published one, and the attempt counter is touched only by its +1/−1 (no reset); (R4) force stop and exhausted retries are fatal-tagged in both engines and a processor error whose nack fails is fatal in v1; (R5) v2 marks a deliberate stop before it stops any worker and StopAll marks the shutdown before stopping; (R7) a v2 worker kills the tomb with its own error before closing itself, so the root cause decides the classification.",
+		Explanation: "Decides the structural clauses of failure classification and bounded recovery on every path of the two lifecycle services: (R1) the cleanup goroutine calls recoverPipeline only on the not-fatal (v2: and not-shutting-down, not-intentionally-stopped) edge, writes Degraded only on the fatal edge or after a failed recovery, and writes only a stopped status when the tomb is still alive / after a deliberate stop; (R2) recoverPipeline / StartWithBackoff have closed caller sets; (R3) StartWithBackoff waits and restarts only below the retry bound (exceeding it returns a fatal error), restarts only when the run it belongs to is still the published one, and the attempt counter is touched only by its +1/−1 (no reset); (R4) force stop and exhausted retries are fatal-tagged in both engines and a processor error whose nack fails is fatal in v1; (R5) v2 marks a deliberate stop before it stops any worker and StopAll marks the shutdown before stopping; (R7) a v2 worker kills the tomb with its own error before closing itself, so the root cause decides the classification; (R8) a v2 run parked in the recovery back-off is not restarted once a stop marked it (graceful or force) and the cleanup goroutine finalizes that as UserStopped; (R4 also) a failed v1 DLQ write and a v2 processor error whose nack fails are returned as fatal errors.",
 		NotDecided:  []string{"which goroutine wins the tomb at run time", "delays and windows (timing)", "v1/v2 parity of 'DLQ write failure is fatal' and 'processor error with the DLQ disabled' (reported as notes only — not demonstrated defects)"},
 		Assumptions: []string{"tomb.v2: the first Kill reason is the tomb's error", "cerrors.IsFatalError (C20.R4)"},
 	})
 	register(&Property{
 		ID:  "C11",
 		Run: runC11,
-		Explanation: "Decides the structural clauses of 'one live run, true result': (R1) a run is published in runningPipelines before the Running status is written, only by runPipeline; (R2) v1 removes the published entry only through compare-and-delete under the publication mutex; (R3) the terminal error is recorded before the entry is removed, Start clears the previous terminal error before running, WaitPipeline consults the live entry first and the terminal error second; (R4) v2 start-up barriers: workers wait for `registered`, the cleanup goroutine waits for `startupDone`, both channels are closed on every path; (R5) the publication mutex guards every v1 write of the map; (R6) connectors and processors are released at the end of a run (Instance.connector cleared by Teardown, running flag reset on every failing exit of MakeRunnableProcessor); (R7) a second run is refused (running status, live tomb, non-nil Instance.connector); (R9) nodes that Stop waits on publish their stopped state by a defer registered at entry.",
-		NotDecided:  []string{"absence of deadlock in general", "which interleavings occur", "the v2 engine's blind delete of the published entry (no demonstrated failure)"},
+		Explanation: "Decides the structural clauses of 'one live run, true result': (R1) a run is published in runningPipelines before the Running status is written, only by runPipeline; (R2) both engines remove the published entry only through compare-and-delete under the publication mutex; (R3) the terminal error is recorded before the entry is removed, Start clears the previous terminal error before running, WaitPipeline consults the live entry first and the terminal error second; (R4) v2 start-up barriers: workers wait for `registered`, the cleanup goroutine waits for `startupDone`, both channels are closed on every path; (R5) the publication mutex guards every write of the map in both engines; (R6) connectors and processors are released at the end of a run (Instance.connector cleared by Teardown, running flag reset on every failing exit of MakeRunnableProcessor); (R7) a second run is refused (running status, live tomb, non-nil Instance.connector); (R9) nodes that Stop waits on publish their stopped state by a defer registered at entry; (R10) a v1 start that fails after the nodes were started un-publishes the run, kills its tomb and joins the nodes on every exit.",
+		NotDecided:  []string{"absence of deadlock in general", "which interleavings occur"},
 		Assumptions: []string{"csync.Map is a mutex-guarded map", "tomb.v2 semantics"},
 	})
 	register(&Property{
@@ -136,6 +136,118 @@ func runC10(c *Ctx) {
 	c10R4(c)
 	c10R5(c)
 	c10R7(c)
+	c10R8(c)
+}
+
+// c10R8: a stop issued while the run is parked in the recovery back-off wins
+// over the restart (F13).
+func c10R8(c *Ctx) {
+	r := c.R.Rule("R8", "K3 stopped stays stopped during the back-off: v2 StartWithBackoff restarts only on the !intentionalStop and !isGracefulShutdown edges, every stop branch (graceful and force) sets the marker before it kills/stops, and the cleanup goroutine finalizes the sentinel StartWithBackoff returns for a user stop as UserStopped, never Degraded", 5)
+	rel := pLife2
+	intent := c.Field(r, rel, "runnablePipeline", "intentionalStop")
+	shut := c.Field(r, rel, "Service", "isGracefulShutdown")
+	kill := c.W.ExtMethod("gopkg.in/tomb.v2", "Tomb", "Kill")
+	isVar := c.W.LookupObj(pCerrors, "Is") // cerrors.Is = errors.Is (a package-level func variable)
+	errorsIs := c.W.ExtObj("errors", "Is")
+	if isVar == nil && errorsIs == nil {
+		c.R.Unresolved(r, "cerrors.Is / errors.Is")
+	}
+	isCalls := func(fn *ssa.Function) []*ssa.Call {
+		var out []*ssa.Call
+		for _, b := range fn.Blocks {
+			for _, in := range b.Instrs {
+				x, ok := in.(*ssa.Call)
+				if !ok {
+					continue
+				}
+				if u, ok := x.Call.Value.(*ssa.UnOp); ok {
+					if g, ok := u.X.(*ssa.Global); ok && isVar != nil && g.Object() == isVar {
+						out = append(out, x)
+					}
+				}
+				if f := x.Call.StaticCallee(); f != nil && errorsIs != nil && f.Object() == errorsIs {
+					out = append(out, x)
+				}
+			}
+		}
+		return out
+	}
+	var sentinels []ssa.Value
+	if fn := c.SSA(r, rel, "(*Service).StartWithBackoff"); fn != nil {
+		starts := asInstrs(kit.CallsTo(fn, Set(c.Fn(r, rel, "(*Service).Start"))))
+		for _, t := range []struct {
+			f    *types.Var
+			name string
+		}{{intent, "intentionalStop"}, {shut, "isGracefulShutdown"}} {
+			g := kit.NewGates()
+			for _, l := range atomicCalls(fn, t.f, "Load") {
+				g.AddEdges(kit.CondEdges(l.Value(), false), "!"+t.name)
+				// what is returned on the marker's true edge
+				if t.f == intent {
+					for _, e := range kit.CondEdges(l.Value(), true) {
+						for _, ret := range kit.Returns(fn) {
+							if ret.Block() == e.To || e.To.Dominates(ret.Block()) {
+								sentinels = append(sentinels, kit.RetVal(ret, 0))
+							}
+						}
+					}
+				}
+			}
+			c.Dominated(r, "v2 StartWithBackoff: no restart after "+t.name, starts, g, "the !"+t.name+".Load() edge")
+		}
+	}
+	if fn := c.SSA(r, rel, "(*Service).stopRunnablePipeline"); fn != nil && kill != nil {
+		g := kit.NewGates()
+		for _, s := range atomicCalls(fn, intent, "Store") {
+			if kit.IsBoolConst(s.Common().Args[1], true) {
+				g.AddInstr(s, "")
+			}
+		}
+		c.Dominated(r, "v2 stopRunnablePipeline: marker set before the tomb is killed by a stop", asInstrs(kit.CallsTo(fn, Set(kill))), g, "intentionalStop.Store(true)")
+	}
+	// cleanup goroutine: the sentinel is finalized as a user stop
+	run := c.SSA(r, rel, "(*Service).runPipeline")
+	if run == nil {
+		return
+	}
+	lits := litsWith(run, Set(c.Fn(r, rel, "(*Service).recoverPipeline")))
+	if len(lits) != 1 || len(sentinels) == 0 {
+		c.R.Fail(r, "v2 cleanup: user stop during the back-off", c.Pos(run.Pos()), "StartWithBackoff returns no sentinel on the intentionalStop edge, or the cleanup goroutine was not found")
+		return
+	}
+	cl := lits[0]
+	var edges []kit.Edge
+	for _, call := range isCalls(cl) {
+		a := call.Common().Args
+		for _, sv := range sentinels {
+			u, ok := sv.(*ssa.UnOp)
+			if !ok {
+				continue
+			}
+			if g, ok := u.X.(*ssa.Global); ok && len(a) == 2 && isGlobalLoad(a[1], g.Object()) {
+				edges = append(edges, kit.CondEdges(call, true)...)
+			}
+		}
+	}
+	if len(edges) == 0 {
+		c.R.Fail(r, "v2 cleanup: user stop during the back-off", c.Pos(cl.Pos()), "the cleanup goroutine does not test the recovery error against the user-stop sentinel StartWithBackoff returns: it would be treated as a failed recovery (Degraded)")
+		return
+	}
+	back := kit.NewGates().AddEdges(loopBackEdges(cl), "")
+	stopped := false
+	for _, us := range updateStatusCalls(c, r, cl, rel) {
+		for _, e := range edges {
+			if !kit.EdgeReaches(e, us, back) {
+				continue
+			}
+			if statusIs(c, statusArg(us), "StatusUserStopped") {
+				stopped = true
+			} else {
+				c.R.Fail(r, "v2 cleanup: user stop during the back-off", c.Pos(us.Pos()), "a status other than UserStopped is written on the user-stopped-during-back-off edge")
+			}
+		}
+	}
+	c.R.Check(stopped, r, "v2 cleanup: user stop during the back-off ends UserStopped", c.Pos(cl.Pos()), "ok", "no UserStopped write on the user-stopped-during-back-off edge", true)
 }
 
 func c10R1(c *Ctx) {
@@ -381,7 +493,7 @@ func c10R2R3(c *Ctx) {
 }
 
 func c10R4(c *Ctx) {
-	r := c.R.Rule("R4", "K3 fatal-cause table: force stop is FatalError(ErrForceStop) in both engines; a v1 processor error whose nack fails, an unknown result kind and a record-count mismatch are fatal", 6)
+	r := c.R.Rule("R4", "K3 fatal-cause table: force stop is FatalError(ErrForceStop) in both engines; a v1 processor error whose nack fails, an unknown result kind and a record-count mismatch are fatal; a failed v1 DLQ write is fatal; a v2 processor error whose nack fails is fatal", 9)
 	fatal := c.Fn(r, pCerrors, "FatalError")
 	kill := c.W.ExtMethod("gopkg.in/tomb.v2", "Tomb", "Kill")
 	forceStop := c.W.LookupObj(pPipe, "ErrForceStop")
@@ -445,6 +557,53 @@ func c10R4(c *Ctx) {
 		}
 		c.R.Check(cnt >= 2, r, "v1 ProcessorNode.Run: a record-count mismatch is fatal", c.Pos(fn.Pos()), "FatalError returns", "the record-count mismatch no longer returns cerrors.FatalError", true)
 	}
+	// v1: a failed DLQ write is fatal (F11a): every return behind the failure edge of Handler.Write is FatalError(...)
+	if fn := c.SSA(r, pStream, "(*DLQHandlerNode).Nack"); fn != nil {
+		write := c.Fam(c.Fn(r, pStream, "DLQHandler.Write"))
+		n := 0
+		for _, call := range kit.CallsTo(fn, write) {
+			for _, e := range kit.FailEdges(call) {
+				for _, ret := range kit.Returns(fn) {
+					if !(ret.Block() == e.To || e.To.Dominates(ret.Block())) {
+						continue
+					}
+					n++
+					v := kit.RetVal(ret, 0)
+					cl, isCall := v.(*ssa.Call)
+					c.R.Check(isCall && kit.CalleeOf(cl.Common()) == fatal, r, "v1 DLQHandlerNode.Nack: a failed DLQ write is fatal", c.Pos(posOf(ret)), "FatalError", "the DLQ write failure is returned without cerrors.FatalError: the pipeline would be restarted forever, re-reading and re-failing the same record", true)
+				}
+			}
+		}
+		c.R.Check(n >= 1, r, "v1 DLQHandlerNode.Nack: DLQ write failure return", c.Pos(fn.Pos()), "found", "no return found behind the failure edge of Handler.Write", true)
+	}
+	// v2: a processor error the DLQ does not absorb is fatal (F11b): behind the failure edge of the task's
+	// acker.Nack there is a return of FatalError(...) guarded by the task being a ProcessorTask
+	if fn := c.SSA(r, pFunnel, "(*Worker).doTaskAttempt"); fn != nil {
+		nack := c.Fam(c.Fn(r, pFunnel, "ackNacker.Nack"))
+		procT := c.W.LookupType(pFunnel, "ProcessorTask")
+		found := false
+		for _, call := range kit.CallsTo(fn, nack) {
+			for _, e := range kit.FailEdges(call) {
+				for _, ret := range kit.Returns(fn) {
+					if !(ret.Block() == e.To || e.To.Dominates(ret.Block())) {
+						continue
+					}
+					cl, isCall := kit.RetVal(ret, 0).(*ssa.Call)
+					if !isCall || kit.CalleeOf(cl.Common()) != fatal {
+						continue
+					}
+					// guarded by a type assertion to *ProcessorTask
+					for _, in := range kit.Instrs(fn, func(in ssa.Instruction) bool { _, ok := in.(*ssa.TypeAssert); return ok }) {
+						ta := in.(*ssa.TypeAssert)
+						if pt, ok := ta.AssertedType.(*types.Pointer); ok && procT != nil && types.Identical(pt.Elem(), procT) && kit.InstrDominates(ta, ret) {
+							found = true
+						}
+					}
+				}
+			}
+		}
+		c.R.Check(found, r, "v2 doTaskAttempt: a processor error whose nack fails is fatal", c.Pos(fn.Pos()), "FatalError", "a ProcessorTask nack failure is no longer returned as cerrors.FatalError: an unabsorbed processor error would restart the pipeline forever", true)
+	}
 }
 
 func c10R5(c *Ctx) {
@@ -459,7 +618,7 @@ func c10R5(c *Ctx) {
 				setFalse = append(setFalse, s)
 			}
 		}
-		c.R.Check(len(setTrue) == 1, r, "stopRunnablePipeline: marks the stop as intentional", c.Pos(fn.Pos()), "ok", "stopRunnablePipeline no longer sets intentionalStop", true)
+		c.R.Check(len(setTrue) >= 1, r, "stopRunnablePipeline: marks the stop as intentional", c.Pos(fn.Pos()), "ok", "stopRunnablePipeline no longer sets intentionalStop", true)
 		// worker stops happen in goroutine literals spawned after the marker
 		wstop := Set(c.Fn(r, pFunnel, "(*Worker).Stop"))
 		var spawns []ssa.Instruction
@@ -544,6 +703,44 @@ func runC11(c *Ctx) {
 	c11R7(c)
 	c11R8(c)
 	c11R9(c)
+	c11R10(c)
+}
+
+// c11R10: a run whose start-up fails after its nodes were started is ended
+// before Start reports the failure (F16).
+func c11R10(c *Ctx) {
+	r := c.R.Rule("R10", "K4 v1 failed start ends the run: on the failure edge of UpdateStatus(Running) in runPipeline (nodes already started, cleanup goroutine not yet registered) every exit has un-published the run, killed its tomb and joined the node goroutines", 3)
+	fn := c.SSA(r, pLife, "(*Service).runPipeline")
+	kill := c.W.ExtMethod("gopkg.in/tomb.v2", "Tomb", "Kill")
+	wait := c.W.ExtMethod("sync", "WaitGroup", "Wait")
+	del := c.Fn(r, pLife, "(*Service).deleteRunningPipelineIfCurrent")
+	if fn == nil || kill == nil || wait == nil || del == nil {
+		c.R.Unresolved(r, "runPipeline / tomb.Kill / sync.WaitGroup.Wait")
+		return
+	}
+	n := 0
+	for _, us := range updateStatusCalls(c, r, fn, pLife) {
+		if !statusIs(c, statusArg(us), "StatusRunning") {
+			continue
+		}
+		for _, e := range kit.FailEdges(us) {
+			n++
+			for _, t := range []struct {
+				set  kit.FuncSet
+				what string
+			}{{Set(del), "un-publishes the run"}, {Set(kill), "kills the tomb"}, {Set(wait), "joins the node goroutines"}} {
+				g := kit.NewGates()
+				for _, call := range kit.CallsTo(fn, t.set) {
+					g.AddInstr(call, t.what)
+				}
+				ok, _ := kit.AllExitsFromEdge(e, false, kit.ExitSpec{Gates: g})
+				c.R.Check(ok && !g.Empty(), r, "v1 runPipeline: failed Running write "+t.what, c.Pos(us.Pos()), "on every exit", "an exit after a failed UpdateStatus(Running) "+"skips the step that "+t.what+": the already-started nodes keep running unreachable by Stop/WaitPipeline and their connectors stay open", true)
+			}
+		}
+	}
+	if n == 0 {
+		c.R.Fail(r, "v1 runPipeline: failure edge of the Running status write", c.Pos(fn.Pos()), "no failure edge of UpdateStatus(StatusRunning) found")
+	}
 }
 
 func c11R8(c *Ctx) {
@@ -623,54 +820,60 @@ func c11R1(c *Ctx) {
 }
 
 func c11R2R5(c *Ctx) {
-	r2 := c.R.Rule("R2", "K1/K3 v1 compare-and-delete: the published entry is removed only by deleteRunningPipelineIfCurrent, on the current==rp edge", 3)
-	r5 := c.R.Rule("R5", "K5 v1 publication mutex: every write of runningPipelines happens with publishMu held", 2)
-	runningF := c.Field(r2, pLife, "Service", "runningPipelines")
-	p := c.W.Pkg(pLife)
-	if p == nil {
-		return
-	}
-	sp := c.W.SSA[p.Types]
+	r2 := c.R.Rule("R2", "K1/K3 compare-and-delete (both engines): the published entry is removed only by deleteRunningPipelineIfCurrent, on the current==rp edge", 6)
+	r5 := c.R.Rule("R5", "K5 publication mutex (both engines): every write of runningPipelines happens with publishMu held", 4)
 	spec := c.W.StdLockSpec()
-	ms := c.W.Prog.MethodSets.MethodSet(types.NewPointer(c.W.LookupType(pLife, "Service")))
-	nDel := 0
-	for i := 0; i < ms.Len(); i++ {
-		f := c.W.Prog.MethodValue(ms.At(i))
-		if f == nil || f.Pkg != sp {
+	for _, rel := range []string{pLife, pLife2} {
+		eng := "v1"
+		if rel == pLife2 {
+			eng = "v2"
+		}
+		runningF := c.Field(r2, rel, "Service", "runningPipelines")
+		p := c.W.Pkg(rel)
+		if p == nil {
 			continue
 		}
-		for _, ff := range kit.WithAnon(f) {
-			ls := kit.Locksets(ff, spec, nil)
-			for _, d := range mapCalls(ff, runningF, "Delete") {
-				nDel++
-				ok := strings.HasSuffix(kit.FuncKey(f), ".deleteRunningPipelineIfCurrent")
-				c.R.Check(ok, r2, "v1 runningPipelines.Delete in "+kit.FuncKey(f), c.Pos(posOf(d)), "compare-and-delete helper", "the published entry is deleted in "+kit.FuncKey(f)+" without the compare-and-delete helper: a finished run can delete its successor's entry (#2806)", false)
-				c.R.Check(containsLock(ls[d], "recv.publishMu"), r5, "v1 Delete under publishMu ("+kit.FuncKey(f)+")", c.Pos(posOf(d)), "held "+ls[d], "runningPipelines.Delete without publishMu", true)
+		sp := c.W.SSA[p.Types]
+		ms := c.W.Prog.MethodSets.MethodSet(types.NewPointer(c.W.LookupType(rel, "Service")))
+		nDel := 0
+		for i := 0; i < ms.Len(); i++ {
+			f := c.W.Prog.MethodValue(ms.At(i))
+			if f == nil || f.Pkg != sp {
+				continue
 			}
-			for _, s := range mapCalls(ff, runningF, "Set") {
-				c.R.Check(containsLock(ls[s], "recv.publishMu"), r5, "v1 Set under publishMu ("+kit.FuncKey(f)+")", c.Pos(posOf(s)), "held "+ls[s], "runningPipelines.Set without publishMu", true)
-			}
-		}
-	}
-	c.R.Check(nDel == 1, r2, "v1: a single delete site", "", "1", "expected exactly one runningPipelines.Delete in pkg/lifecycle", false)
-	if fn := c.SSA(r2, pLife, "(*Service).deleteRunningPipelineIfCurrent"); fn != nil {
-		rpParam := paramOfNamed(fn, "runnablePipeline")
-		g := kit.NewGates()
-		for _, gt := range mapCalls(fn, runningF, "Get") {
-			cur := kit.ResultN(gt.(ssa.CallInstruction), 0)
-			g.AddEdges(kit.CmpEdges(fn, func(b *ssa.BinOp) (bool, bool) {
-				if (b.X == cur && kit.IsVar(b.Y, rpParam)) || (b.Y == cur && kit.IsVar(b.X, rpParam)) {
-					switch b.Op {
-					case token.EQL:
-						return true, true
-					case token.NEQ:
-						return true, false
-					}
+			for _, ff := range kit.WithAnon(f) {
+				ls := kit.Locksets(ff, spec, nil)
+				for _, d := range mapCalls(ff, runningF, "Delete") {
+					nDel++
+					ok := strings.HasSuffix(kit.FuncKey(f), ".deleteRunningPipelineIfCurrent")
+					c.R.Check(ok, r2, eng+" runningPipelines.Delete in "+kit.FuncKey(f), c.Pos(posOf(d)), "compare-and-delete helper", "the published entry is deleted in "+kit.FuncKey(f)+" without the compare-and-delete helper: a finished run can delete its successor's entry (#2806)", false)
+					c.R.Check(containsLock(ls[d], "recv.publishMu"), r5, eng+" Delete under publishMu ("+kit.FuncKey(f)+")", c.Pos(posOf(d)), "held "+ls[d], "runningPipelines.Delete without publishMu", true)
 				}
-				return false, false
-			}), "current == rp")
+				for _, s := range mapCalls(ff, runningF, "Set") {
+					c.R.Check(containsLock(ls[s], "recv.publishMu"), r5, eng+" Set under publishMu ("+kit.FuncKey(f)+")", c.Pos(posOf(s)), "held "+ls[s], "runningPipelines.Set without publishMu", true)
+				}
+			}
 		}
-		c.Dominated(r2, "deleteRunningPipelineIfCurrent: delete only when the entry is this run", mapCalls(fn, runningF, "Delete"), g, "the current == rp edge")
+		c.R.Check(nDel >= 1, r2, eng+": the departing run removes its entry", "", "ok", "no runningPipelines.Delete left in "+rel+": an ended run would stay published", false)
+		if fn := c.SSA(r2, rel, "(*Service).deleteRunningPipelineIfCurrent"); fn != nil {
+			rpParam := paramOfNamed(fn, "runnablePipeline")
+			g := kit.NewGates()
+			for _, gt := range mapCalls(fn, runningF, "Get") {
+				cur := kit.ResultN(gt.(ssa.CallInstruction), 0)
+				g.AddEdges(kit.CmpEdges(fn, func(b *ssa.BinOp) (bool, bool) {
+					if (b.X == cur && kit.IsVar(b.Y, rpParam)) || (b.Y == cur && kit.IsVar(b.X, rpParam)) {
+						switch b.Op {
+						case token.EQL:
+							return true, true
+						case token.NEQ:
+							return true, false
+						}
+					}
+					return false, false
+				}), "current == rp")
+			}
+			c.Dominated(r2, eng+" deleteRunningPipelineIfCurrent: delete only when the entry is this run", mapCalls(fn, runningF, "Delete"), g, "the current == rp edge")
+		}
 	}
 }
 
